@@ -129,6 +129,7 @@ type obs struct {
 	Height uint64
 	Block  []string // per height 1..h: digest of block, meta, seen commit, receipts, TxsResult
 	State  string   // state root, state hash, receipt hash, digest of every persisted account
+	Accts  string   // the account part of State alone (tells WHICH height a deviating state is at)
 	Status string   // consensus status (memory and database), validator / parameter records for h+1
 	Btio   []string // per height 1..h: first output sequence per token of the block
 }
@@ -172,6 +173,17 @@ func digest(parts ...[]byte) string {
 		h.Write(p)
 	}
 	return hex.EncodeToString(h.Sum(nil)[:10])
+}
+
+// dbDigest hashes the whole content of a database.
+func dbDigest(db dbm.DB) string {
+	h := sha256.New()
+	it := db.Iterator(nil, nil)
+	defer it.Close()
+	for ; it.Valid(); it.Next() {
+		fmt.Fprintf(h, "%d:%x=%d:%x;", len(it.Key()), it.Key(), len(it.Value()), it.Value())
+	}
+	return hex.EncodeToString(h.Sum(nil)[:8])
 }
 
 func enc(v interface{}) []byte {
@@ -247,7 +259,8 @@ func observe(c *minichain.Chain) (o obs) {
 	}
 	if p, v := vk.Catch(func() {
 		root, sh, rh := c.StateRoot(), c.StateHash(), c.ReceiptHash()
-		o.State = fmt.Sprintf("root=%x statehash=%x receipthash=%x %s", root[:6], sh[:6], rh[:6], accountsDigest(c))
+		o.Accts = accountsDigest(c)
+		o.State = fmt.Sprintf("root=%x statehash=%x receipthash=%x %s", root[:6], sh[:6], rh[:6], o.Accts)
 	}); p {
 		o.State = fmt.Sprintf("panic: %v", v)
 	}
@@ -520,16 +533,15 @@ func (w *world) compare(c *minichain.Chain, h uint64) (ms []mismatch) {
 	// world state
 	if o.State != ref.State {
 		dir, extra := "differs", ""
-		if h > 0 && o.State == w.refs[h-1].State {
-			dir = "behind"
-		} else if h < w.L && o.State == w.refs[h+1].State {
-			dir = "ahead"
-		} else {
-			for k := range w.refs {
-				if w.refs[k].State == o.State {
-					dir = "differs"
-					extra = fmt.Sprintf(" (= crash-free state at height %d)", k)
+		for k := range w.refs { // which height is the persisted account state at?
+			if w.refs[k].Accts == o.Accts && o.Accts != "" {
+				extra = fmt.Sprintf(" (accounts = crash-free state at height %d)", k)
+				if uint64(k) < h {
+					dir = "behind"
+				} else if uint64(k) > h {
+					dir = "ahead"
 				}
+				break
 			}
 		}
 		ms = append(ms, mismatch{"world-state", dir, fmt.Sprintf("block store at %d, state %s%s, crash-free run at %d has %s", h, o.State, extra, h, ref.State)})
@@ -785,6 +797,7 @@ func (w *world) evaluate(cp crashPoint, curFile string) (v verdict) {
 			harnessErr("crash: PutWal: %v", err)
 		}
 	}
+	stateBefore := dbDigest(dbs["state"])
 	rc, err := w.ref.RestartOnCopies(dbs, dir)
 	if err != nil {
 		return verdict{outcome: "restart-fails", class: "restart-fails:" + normalize(err.Error()), what: "the node does not start: " + err.Error()}
@@ -794,6 +807,9 @@ func (w *world) evaluate(cp crashPoint, curFile string) (v verdict) {
 	v.outcome = fmt.Sprintf("acked=%d restart-at=acked+%d", acked, int(h)-acked)
 	if rc.RebuiltStatus {
 		v.outcome += " status-rebuilt"
+	}
+	if dbDigest(dbs["state"]) != stateBefore {
+		v.outcome += " state-rolled-back"
 	}
 	if h < uint64(acked) {
 		v.class, v.what = "acknowledged-block-lost", fmt.Sprintf("%d blocks were acknowledged, the restarted node is at height %d", acked, h)
@@ -843,6 +859,17 @@ func (w *world) evaluate(cp crashPoint, curFile string) (v verdict) {
 	return
 }
 
+// points enumerates the crash states of the case's model, simplest first.
+func (w *world) points(quick bool) (pts []crashPoint) {
+	if w.cc.Model == "process" {
+		pts = append(pts, linearPoints(w.evs)...)
+		pts = append(pts, idealPoints(w.evs)...)
+		pts = append(pts, tornPoints(w.evs, !quick)...)
+		return
+	}
+	return powerLossPoints(w.evs, w.tap.rec.Log, 4)
+}
+
 // component is the first part of a verdict class (used for power-loss keys, where direction and message vary with depth).
 func component(class string) string {
 	for _, c := range []string{"restart-fails", "history-cannot-continue", "final-state-differs", "acknowledged-block-lost"} {
@@ -889,14 +916,7 @@ func runCrashCase(cc crashCase, quick bool, deadline time.Time) (res crashResult
 			res.Log = append(res.Log, fmt.Sprintf("%3d chain=%d %s", i, e.chain, describeEvent(w.tap.rec.Log, e)))
 		}
 	}
-	var pts []crashPoint
-	if cc.Model == "process" {
-		pts = append(pts, linearPoints(w.evs)...)
-		pts = append(pts, idealPoints(w.evs)...)
-		pts = append(pts, tornPoints(w.evs, !quick)...)
-	} else {
-		pts = powerLossPoints(w.evs, w.tap.rec.Log, 4)
-	}
+	pts := w.points(quick)
 	cur := filepath.Join(filepath.Dir(scratch), fmt.Sprintf("cur-%d", os.Getpid()))
 	defer os.Remove(cur)
 	seen := map[string]bool{}
@@ -946,9 +966,9 @@ func runCrashCase(cc crashCase, quick bool, deadline time.Time) (res crashResult
 				continue
 			case len(cp.lostBy) == 1:
 				devs = cp.lostBy[0].dev
-			case single[cp.lostBy[0].String()] == v.class:
+			case component(single[cp.lostBy[0].String()]) == component(v.class):
 				devs = cp.lostBy[0].dev
-			case single[cp.lostBy[1].String()] == v.class:
+			case component(single[cp.lostBy[1].String()]) == component(v.class):
 				devs = cp.lostBy[1].dev
 			default:
 				devs = cp.lostBy[0].dev + "+" + cp.lostBy[1].dev
@@ -957,7 +977,104 @@ func runCrashCase(cc crashCase, quick bool, deadline time.Time) (res crashResult
 			report("power-loss:unsynced-writes-lost-on="+devs+":"+component(v.class), cp, v)
 		}
 	}
+	if cc.Model == "process" && strings.ContainsRune(cc.Hist, 'E') && !time.Now().After(deadline) {
+		outcome, v := w.unseenEvidence(cur)
+		res.Points["commit by a node that never received the evidence"]++
+		res.Outcomes["evidence not received: "+outcome]++
+		res.Restarts++
+		if v.class != "" {
+			key := v.class + ":after-panic-in-commit:block-carries-evidence-the-node-never-received"
+			res.VioCount[key]++
+			res.Vios = append(res.Vios, vio{Key: key, What: fmt.Sprintf("%s: %s", w.cc, v.what), Replay: map[string]interface{}{"case": cc.String(),
+				"scenario": "a second node commits the blocks of the history without having received the duplicate-vote evidence; it is restarted on what reached its devices when Commit panicked"}})
+		}
+	}
 	return res
+}
+
+// unseenEvidence: evidence gossip is best effort, so a validator may have to commit a block whose DuplicateVoteEvidence it
+// never received itself. A second node (same genesis) commits the blocks of the crash-free run without AddEvidence. If its
+// Commit panics, the process dies at that write boundary: the node is restarted on what reached the devices and the same
+// oracle applies (restart succeeds, consistent at its height, the rest of the history commits, final state equal).
+func (w *world) unseenEvidence(curFile string) (outcome string, v verdict) {
+	rec := kv.NewRecorder()
+	opts := w.ref.Options()
+	opts.NewDB = func(n string) dbm.DB { return rec.DB(n) }
+	opts.WalDir = filepath.Join(w.scratch, "victim")
+	os.RemoveAll(opts.WalDir)
+	defer os.RemoveAll(opts.WalDir)
+	victim, err := minichain.New(opts)
+	if err != nil {
+		harnessErr("crash %s: second node: %v", w.cc, err)
+	}
+	defer victim.Close()
+	victim.Track(w.ref.Universe()...)
+	load := func(k uint64) (*types.Block, *types.PartSet) {
+		parts, err := w.ref.LoadParts(k)
+		if err != nil {
+			harnessErr("crash: reference block %d: %v", k, err)
+		}
+		b, err := minichain.BlockFromParts(parts, w.ref.Status().ConsensusParams.BlockSize.MaxBytes)
+		if err != nil {
+			harnessErr("crash: reference block %d: %v", k, err)
+		}
+		return b, parts
+	}
+	join := func(ms []mismatch) string {
+		var all []string
+		for _, m := range ms {
+			all = append(all, m.String())
+		}
+		return strings.Join(all, " || ")
+	}
+	for k := uint64(1); k <= w.L; k++ {
+		b, parts := load(k)
+		cerr := victim.CommitWithSeen(b, parts, w.ref.BlockStore().LoadSeenCommit(k))
+		if cerr == nil {
+			continue
+		}
+		// the node died inside finalizeCommit of block k
+		if curFile != "" {
+			ioutil.WriteFile(curFile, []byte(w.cc.String()+" restart after the commit of block "+fmt.Sprint(k)+" panicked"), 0600)
+		}
+		dir, err := minichain.NewWalDir(w.scratch)
+		if err != nil {
+			harnessErr("crash: wal dir: %v", err)
+		}
+		defer os.RemoveAll(dir)
+		if !w.cc.Trie {
+			minichain.PutWal(dir, append([]byte{}, victim.WalBytes()...))
+		}
+		rc, rerr := w.ref.RestartOnCopies(rec.Materialize(rec.Len()), dir)
+		if rerr != nil {
+			return "commit panics, restart fails", verdict{class: "restart-fails:" + normalize(rerr.Error()),
+				what: fmt.Sprintf("the commit of block %d (DuplicateVoteEvidence the node never received) panics (%v) after the block store was written; the restarted node does not start: %v", k, cerr, rerr)}
+		}
+		defer rc.Close()
+		h := rc.Height()
+		if h+1 < k {
+			return "commit panics, block lost", verdict{class: "acknowledged-block-lost", what: fmt.Sprintf("%d blocks acknowledged, restarted at %d", k-1, h)}
+		}
+		if ms := w.compare(rc, h); len(ms) > 0 {
+			return "commit panics, restart inconsistent", verdict{class: ms[0].comp + "-" + ms[0].dir,
+				what: fmt.Sprintf("the commit of block %d panics (%v); after restart the block store is at height %d but: %s", k, cerr, h, join(ms))}
+		}
+		for j := h + 1; j <= w.L; j++ {
+			b, parts := load(j)
+			if err := rc.CommitWithSeen(b, parts, w.ref.BlockStore().LoadSeenCommit(j)); err != nil {
+				return "commit panics, restart consistent, cannot continue", verdict{class: "history-cannot-continue:" + normalize(err.Error()),
+					what: fmt.Sprintf("the commit of block %d panics (%v); restarted consistently at %d, but block %d is refused: %v", k, cerr, h, j, err)}
+			}
+		}
+		if ms := w.compare(rc, w.L); len(ms) > 0 {
+			return "commit panics, final differs", verdict{class: "final-state-differs:" + ms[0].comp + "-" + ms[0].dir, what: join(ms)}
+		}
+		return "commit panics, node recovers", verdict{}
+	}
+	if ms := w.compare(victim, w.L); len(ms) > 0 {
+		return "no panic, state differs", verdict{class: "final-state-differs:" + ms[0].comp + "-" + ms[0].dir, what: "a node that never received the evidence ends in a different state: " + join(ms)}
+	}
+	return "no panic, same state", verdict{}
 }
 
 func crashWorker(quick bool) {
@@ -971,9 +1088,86 @@ func crashWorker(quick bool) {
 	vk.WorkerLoop(len(cases), func(i int) interface{} { return runCrashCase(cases[i], quick, dl) })
 }
 
+// sweepScratch removes the scratch directories of C13 runs whose process no longer exists.
+func sweepScratch() {
+	ents, err := ioutil.ReadDir("/dev/shm")
+	if err != nil {
+		return
+	}
+	for _, e := range ents {
+		var pid int
+		name := e.Name()
+		if k, _ := fmt.Sscanf(name, "C13-solo-%d", &pid); k != 1 {
+			if k, _ := fmt.Sscanf(name, "C13-%d", &pid); k != 1 {
+				continue
+			}
+		}
+		if _, err := os.Stat(fmt.Sprintf("/proc/%d", pid)); os.IsNotExist(err) {
+			os.RemoveAll(filepath.Join("/dev/shm", name))
+		}
+	}
+}
+
+// replayCrash re-runs one recorded crash state (./check C13 --replay <file>) in this process and prints the verdict.
+func replayCrash(r *vk.Run) {
+	var rp struct {
+		Case  string `json:"case"`
+		Crash string `json:"crash"`
+	}
+	r.LoadReplay(&rp)
+	full := map[string]interface{}{}
+	r.LoadReplay(&full)
+	f := strings.Split(rp.Case, "/")
+	if len(f) != 3 {
+		vk.Fatalf("replay: %q is not a crash case (pruning cases are re-run by --part prune)", rp.Case)
+	}
+	cc := crashCase{f[0], f[1] == "trie", f[2]}
+	scratch := fmt.Sprintf("/dev/shm/C13-solo-%d", os.Getpid())
+	os.MkdirAll(scratch, 0700)
+	defer os.RemoveAll(scratch)
+	func() {
+		defer func() {
+			if e := recover(); e != nil {
+				os.RemoveAll(scratch)
+				vk.Fatalf("replay: %v", e)
+			}
+		}()
+		w := runHistory(cc, scratch)
+		defer w.ref.Close()
+		for i, e := range w.evs {
+			fmt.Printf("%3d %s\n", i, describeEvent(w.tap.rec.Log, e))
+		}
+		if rp.Crash == "" { // the commit-panic scenario
+			outcome, v := w.unseenEvidence("")
+			fmt.Printf("%s: %s\n", cc, outcome)
+			if v.class != "" {
+				r.Violation(v.class+":after-panic-in-commit:block-carries-evidence-the-node-never-received", v.what, full)
+			}
+			return
+		}
+		for _, cp := range w.points(false) {
+			if cp.String() != rp.Crash {
+				continue
+			}
+			v := w.evaluate(cp, "")
+			fmt.Printf("%s [%s]: %s; verdict: %q %s\n", cc, cp, v.outcome, v.class, v.what)
+			if v.class != "" {
+				key := v.class + ":" + w.where(cp)
+				if cc.Model == "power" {
+					key = "power-loss:" + v.class
+				}
+				r.Violation(key, v.what, full)
+			}
+			return
+		}
+		vk.Fatalf("replay: crash state %q not found in case %s", rp.Crash, cc)
+	}()
+}
+
 // runCrash is the parent side: shards the cases over worker processes and merges their results.
 func runCrash(r *vk.Run) (evaluated int) {
 	cases := crashCases(r.Quick())
+	sweepScratch()
 	scratch := fmt.Sprintf("/dev/shm/C13-%d", os.Getpid())
 	os.MkdirAll(scratch, 0700)
 	defer os.RemoveAll(scratch)
@@ -1011,9 +1205,11 @@ func runCrash(r *vk.Run) (evaluated int) {
 		}
 		var res crashResult
 		if err := json.Unmarshal(raw, &res); err != nil {
+			os.RemoveAll(scratch)
 			vk.Fatalf("crash result: %v", err)
 		}
 		if res.Harness != "" {
+			os.RemoveAll(scratch)
 			vk.Fatalf("%s", res.Harness)
 		}
 		results = append(results, res)
@@ -1062,6 +1258,10 @@ func runCrash(r *vk.Run) (evaluated int) {
 	if done < len(cases) || capped > 0 {
 		r.Capped(fmt.Sprintf("crash: %d of %d (history, mode, model) cases returned, %d crash states not evaluated before the deadline", done, len(cases), capped))
 	}
+	r.Set("states", restarts)
+	r.Set("transitions", recommitted+events)
+	r.Set("traces_validated_against_impl", restarts)
+	r.Set("distinct_restart_outcomes", len(outcomes))
 	r.Set("crash_cases", done)
 	r.Set("crash_log_events", events)
 	r.Set("undo_log_appends", appends)
